@@ -8,7 +8,7 @@ COMMON_NOTE = (
 check(
     "C01",
     "fault_enumeration",
-    "Every labelled ordered forest over N <= 3 (quick) / <= 4 (thorough) nodes x build routes x every structural call (incl. truthy and falsy non-node arguments, non-iterables) x every position at which any of the eight hooks can raise (once, pairs, persistent single (hook,node), read-only plan), for a NodeMixin class, a slotted LightNodeMixin class, a mixed-family universe, two equal-comparing classes and a universe of nodes and SymlinkNodes pointing at each other, under both ANYTREE_ASSERTIONS settings; Hypothesis histories over 13 class mixes; read-free (blind) histories whose invariant is evaluated once at the end; every single fault position also with an interrupt-like BaseException; stack exhaustion as a fault (12 calls x 3 forests x 3..45/90 frames of stack left x 7 classes); legal children assignments of 300/1000 nodes; attach hooks that re-home the receiving node itself below another node. After every call the link invariant is evaluated over everything reachable and no internal assertion may fire. Complete below the bound, sampled above.",
+    "Every labelled ordered forest over N <= 3 (quick) / <= 4 (thorough) nodes x build routes x every structural call (incl. truthy and falsy non-node arguments, non-iterables) x every position at which any of the eight hooks can raise (once, pairs, persistent single (hook,node), read-only plan), for a NodeMixin class, a slotted LightNodeMixin class, a mixed-family universe, two equal-comparing classes and a universe of nodes and SymlinkNodes pointing at each other, under both ANYTREE_ASSERTIONS settings; Hypothesis histories over 13 class mixes; read-free (blind) histories whose invariant is evaluated once at the end; every single fault position also with an interrupt-like BaseException; stack exhaustion as a fault (12 calls x 3 forests x 3..45/90 frames of stack left x 7 classes); legal children assignments of 300/1000 nodes; attach hooks that re-home the receiving node itself below another node. After every call the link invariant is evaluated over everything reachable and no internal assertion may fire. Complete below the bound, sampled above. Also: read-free histories over universes mixing NodeMixin and LightNodeMixin objects; hooks that edit the caller's own children list, return False or raise StopIteration-style exceptions.",
     "Hooks raise (plain, AssertionError-, TreeError- and KeyError-style vetoes, interrupt-like BaseExceptions), edit the tree or read the whole forest in this check; the invariant is read through public .parent/.children; calls run under a lowered recursion limit so the unbounded rollback recursion of KF-C03-4 ends quickly." + COMMON_NOTE,
     "fault enumeration (bounded-exhaustive forests x calls x hook fault positions) + Hypothesis stateful and read-free histories vs. structural link invariant",
     "DESIGN.md sections 4 C01, 9.1, 9.5",
@@ -16,7 +16,7 @@ check(
 check(
     "C02",
     "exploration",
-    "Every labelled ordered forest over N <= 4 nodes (thorough: N = 5 with short children lists) x every parent assignment x every children sequence (lists, tuples, generators) x every deletion; constructors of Node/AnyNode/SymlinkNode with every parent= (incl. falsy non-nodes) and children= argument; Hypothesis histories over 14 class choices; read-free (blind) call sequences of length 2-4 enumerated from the all-roots forest; histories built in a helper scope that hands back one or two nodes only, after which parent chain and whole tree are read from the kept node (links must not depend on anybody else holding the nodes); structural calls, constructors and loop refusals at the bottom of chains deeper than the interpreter's recursion limit; a user class whose constructor calls the rest of its cooperative inheritance chain after setting parent/children; legal calls on node classes whose repr()/str() raise; every parent assignment on every forest N <= 4 with a hook of the moving node that evicts a sibling at each hook position (closed-form expectation); children assigned from generators whose evaluation attaches nodes to the same node. The post-state of the whole universe is compared with a closed-form specification; a call must be refused iff the closed-form predicate says so, with exactly the prescribed class.",
+    "Every labelled ordered forest over N <= 4 nodes (thorough: N = 5 with short children lists) x every parent assignment x every children sequence (lists, tuples, generators) x every deletion; constructors of Node/AnyNode/SymlinkNode with every parent= (incl. falsy non-nodes) and children= argument; Hypothesis histories over 14 class choices; read-free (blind) call sequences of length 2-4 enumerated from the all-roots forest; histories built in a helper scope that hands back one or two nodes only, after which parent chain and whole tree are read from the kept node (links must not depend on anybody else holding the nodes); structural calls, constructors and loop refusals at the bottom of chains deeper than the interpreter's recursion limit; a user class whose constructor calls the rest of its cooperative inheritance chain after setting parent/children; legal calls on node classes whose repr()/str() raise; every parent assignment on every forest N <= 4 with a hook of the moving node that evicts a sibling at each hook position (closed-form expectation); children assigned from generators whose evaluation attaches nodes to the same node. The post-state of the whole universe is compared with a closed-form specification; a call must be refused iff the closed-form predicate says so, with exactly the prescribed class. Also: look-alike non-nodes (a node class passed instead of an instance, a stub with parent/children/iter_path_reverse) must be refused with TreeError like any non-node.",
     "Trusts the closed-form spec in vf/mut.py (written from the statement); NodeMixin and LightNodeMixin universes are never mixed; non-node arguments only for NodeMixin classes; non-iterable children belong to C03." + COMMON_NOTE,
     "bounded-exhaustive forests x calls + Hypothesis histories (with and without intermediate reads) vs. closed-form post-state/refusal specification",
     "DESIGN.md sections 4 C02, 9.1, 9.5",
@@ -24,7 +24,7 @@ check(
 check(
     "C03",
     "fault_enumeration",
-    "Every forest over N <= 3 (quick) / <= 4 (thorough) nodes x every call x every position at which a pre-hook can raise (once, pairs covering the hooks re-run by the rollback, persistent single (hook,node), read-only plan) and every invalid argument (non-node parents for both mixins, non-node children for NodeMixin, non-iterables), plus Hypothesis histories, refusals at the bottom of chains deeper than the recursion limit, a forest locked through an override of the public parent property (every call on every forest N <= 3/4), vetoes of every exception style, vetoes of the attach phase after _pre_detach_children re-filed a child (the rollback restores it too), and vetoed legal calls on node classes whose repr()/str() raise: an in-scope failing call must leave the whole-universe snapshot unchanged. Four known findings (KF-C03-1..4) are recognised only when a step model of the current rollback algorithm predicts exactly the observed exception and post-state; any other deviation is a violation.",
+    "Every forest over N <= 3 (quick) / <= 4 (thorough) nodes x every call x every position at which a pre-hook can raise (once, pairs covering the hooks re-run by the rollback, persistent single (hook,node), read-only plan) and every invalid argument (non-node parents for both mixins, non-node children for NodeMixin, non-iterables), plus Hypothesis histories, refusals at the bottom of chains deeper than the recursion limit, a forest locked through an override of the public parent property (every call on every forest N <= 3/4), vetoes of every exception style, vetoes of the attach phase after _pre_detach_children re-filed a child (the rollback restores it too), and vetoed legal calls on node classes whose repr()/str() raise: an in-scope failing call must leave the whole-universe snapshot unchanged. Four known findings (KF-C03-1..4) are recognised only when a step model of the current rollback algorithm predicts exactly the observed exception and post-state; any other deviation is a violation. Also: look-alike non-nodes and StopIteration-style vetoes.",
     "Scope: TreeError/LoopError, TypeError for non-iterable children, any exception for a non-node parent, or only _pre_* hooks raised. The step model (vf/mut.py StepModel) only classifies deviations, it is never the oracle." + COMMON_NOTE,
     "fault enumeration of pre-hook exception positions vs. pre-state == post-state, deviations classified against known findings",
     "DESIGN.md sections 4 C03, 2.6, 9.1",
@@ -56,7 +56,7 @@ check(
 check(
     "C07",
     "exploration",
-    "Trees up to 12 nodes with adversarial names (regex/wildcard metacharacters, the other separators, case variants of sibling names), six separators, two path attributes, all ignorecase/relax combinations, resolver objects re-used for the whole process (built with keyword arguments, positionally, with only the non-default options, and by a subclass that sets the option attributes after the base constructor): for every ordered node pair the absolute path and the relative path spelled from Walker.walk must resolve to the target; generated component sequences must give exactly the node or exception class (and exc.node) a reference interpreter of the statement gives (ChildResolverError.child must be the failing component); relaxed mode returns None exactly there and never raises; in half of the generated cases each path text is first used as a glob() pattern (class-level pattern cache). Names may be ints, tuples or str subclasses with their own __str__; node classes whose repr() raises (relaxed misses must still return None); the same text used first on a tree with another separator; trees that mix node classes with different separators; paths with more components than the recursion limit (zig-zag on two nodes, chains that deep). All short paths over a 7-symbol alphabet are enumerated on small shapes (with and without duplicate names); cases are re-checked after moves, detaches and renames; the thorough tier adds 16 atheris campaigns on the same strategy and oracle.",
+    "Trees up to 12 nodes with adversarial names (regex/wildcard metacharacters, the other separators, case variants of sibling names), six separators, two path attributes, all ignorecase/relax combinations, resolver objects re-used for the whole process (built with keyword arguments, positionally, with only the non-default options, and by a subclass that sets the option attributes after the base constructor): for every ordered node pair the absolute path and the relative path spelled from Walker.walk must resolve to the target; generated component sequences must give exactly the node or exception class (and exc.node) a reference interpreter of the statement gives (ChildResolverError.child must be the failing component); relaxed mode returns None exactly there and never raises; in half of the generated cases each path text is first used as a glob() pattern (class-level pattern cache). Names may be ints, tuples or str subclasses with their own __str__; node classes whose repr() raises (relaxed misses must still return None); the same text used first on a tree with another separator; trees that mix node classes with different separators; paths with more components than the recursion limit (zig-zag on two nodes, chains that deep). All short paths over a 7-symbol alphabet are enumerated on small shapes (with and without duplicate names); cases are re-checked after moves, detaches and renames; the thorough tier adds 16 atheris campaigns on the same strategy and oracle. Separators include multi-character ones with cased letters ('->', 'x', ' of ') with names ending in one of the separator's characters (generated so that joined paths split back uniquely).",
     "Trusts vf/resolver_ref.py ref_get; names never contain separator characters and are never '', '.', '..'; special-casing characters are not generated. Repaired defect D3 (fix: 093226e) is replayed as regression input." + COMMON_NOTE,
     "Hypothesis trees/names/paths + exhaustive short paths (+ atheris campaigns in the thorough tier) vs. reference path interpreter and two round trips",
     "DESIGN.md sections 4 C07, 9.1",
@@ -64,7 +64,7 @@ check(
 check(
     "C08",
     "exploration",
-    "Every query runs in relaxed and strict mode on the shared class-level pattern cache (the queries of a case form a cache history with more than 20 distinct components, ignorecase pairs, re-use after eviction, explicit clears; in a quarter of the generated cases every query is preceded by get() of the same text). Relaxed: never raises, identity set equals a reference evaluator with its own DP wildcard matcher, pre-order/duplicate clauses. Strict: same list or ResolverError only with a genuine dead end; wildcard-free patterns agree with get. Names with special-casing characters (sharp s, ligatures, dotless i, Kelvin sign) are judged by folding-independent clauses only: wildcard-only patterns by length, identical spelling, case-sensitive literals, independence of the query history; a path attribute that re-enters the running resolver object; trees that mix separators; every group of names that some case mapping identifies; the same text used first on a tree with another separator. All patterns of <= 3 (quick) / <= 4 (thorough) components over an 11-symbol alphabet (incl. the empty component and a literal with '[') are enumerated on all shapes <= 4/5 nodes with three naming schemes; the thorough tier adds 16 atheris campaigns.",
+    "Every query runs in relaxed and strict mode on the shared class-level pattern cache (the queries of a case form a cache history with more than 20 distinct components, ignorecase pairs, re-use after eviction, explicit clears; in a quarter of the generated cases every query is preceded by get() of the same text). Relaxed: never raises, identity set equals a reference evaluator with its own DP wildcard matcher, pre-order/duplicate clauses. Strict: same list or ResolverError only with a genuine dead end; wildcard-free patterns agree with get. Names with special-casing characters (sharp s, ligatures, dotless i, Kelvin sign) are judged by folding-independent clauses only: wildcard-only patterns by length, identical spelling, case-sensitive literals, independence of the query history; a path attribute that re-enters the running resolver object; trees that mix separators; every group of names that some case mapping identifies; the same text used first on a tree with another separator. All patterns of <= 3 (quick) / <= 4 (thorough) components over an 11-symbol alphabet (incl. the empty component and a literal with '[') are enumerated on all shapes <= 4/5 nodes with three naming schemes; the thorough tier adds 16 atheris campaigns. Separators include '->', 'x' and ' of '.",
     "Trusts vf/resolver_ref.py ref_glob/wildmatch; '**' as absolute root component not generated; strict clauses only on sibling-unique names. Defect D4 repaired (fix: 7a838a2); KF-C08-1 recognised only by its dead-end signature with the subsequence requirement." + COMMON_NOTE,
     "Hypothesis patterns/cache histories + exhaustive short patterns (+ atheris campaigns in the thorough tier) vs. reference glob evaluator; relaxed/strict/get metamorphic relations",
     "DESIGN.md sections 4 C08, 9.1",
@@ -72,7 +72,7 @@ check(
 check(
     "C09",
     "exploration",
-    "Rows of RenderTree are compared with a row oracle built from 'has following sibling' flags for every shape <= 6/8 nodes x start x 7 styles x 5 childiters x every maxlevel, keyword and positional forms, and the drawing is decoded back into a shape from the prefixes alone; abandoned/interleaved renderings, a RenderTree object kept across mutations, option changes and changes of its style object's glyphs; nodes with 300-1500 children; overlapping iterations of one RenderTree object; Hypothesis adds larger trees, random equal-width styles, multi-line/empty/list/tuple/range/deque/int/missing/callable values for by_attr and str() (on a class whose __str__ differs from its __repr__), and Node/AnyNode/SymlinkNode reprs with generated attributes (prefix-related names), names (also tuples) and separators, re-checked after renames and moves.",
+    "Rows of RenderTree are compared with a row oracle built from 'has following sibling' flags for every shape <= 6/8 nodes x start x 7 styles x 5 childiters x every maxlevel, keyword and positional forms, and the drawing is decoded back into a shape from the prefixes alone; abandoned/interleaved renderings, a RenderTree object kept across mutations, option changes and changes of its style object's glyphs; nodes with 300-1500 children; overlapping iterations of one RenderTree object; Hypothesis adds larger trees, random equal-width styles, multi-line/empty/list/tuple/range/deque/int/missing/callable values for by_attr and str() (on a class whose __str__ differs from its __repr__), and Node/AnyNode/SymlinkNode reprs with generated attributes (prefix-related names), names (also tuples) and separators, re-checked after renames and moves. maxlevel values that are not whole numbers are judged by the literal statement (depth below max(maxlevel, 1)).",
     "Assumes lines are separated by '\\n' only and values carry no trailing newline (not generated); custom styles are decodable (cont != end, vertical != blank)." + COMMON_NOTE,
     "bounded-exhaustive shapes x options + Hypothesis text values vs. row oracle and decode-back round trip",
     "DESIGN.md sections 4 C09, 9.1",
@@ -80,7 +80,7 @@ check(
 check(
     "C10",
     "exploration",
-    "Generated trees of AnyNode/Node/a user NodeMixin class/container-like and equal-comparing AnyNode subclasses with arbitrary attribute dictionaries (non-identifier, underscore and property-named keys; None, numbers, text, bytes, tuples, sets, nested containers, opaque objects) and every attriter/childiter (lists, generators, one-shot iterators, filters that remove all children)/dictcls/maxlevel choice: export equals an independent serialisation (key order, mapping type, 'children' only when non-empty), import_(export(t)) is isomorphic, export(import_(d)) equals d up to empty 'children' lists for generated nested dictionaries with the 'children' key at any position, and neither call modifies its argument (key order included; also for auto-vivifying dictionaries, where a mere look-up of an absent key inserts it); data keys that look like the mixins' private names but were assigned by the user are exported like any other; positional constructor arguments; a memoising childiter that returns the same list object again; an attriter that calls export() of the same exporter on another tree does not disturb the running export; a long-lived exporter whose earlier exports were aborted by an exception from attriter/childiter exports the same data as before. The option product is enumerated on all shapes <= 4/6 nodes.",
+    "Generated trees of AnyNode/Node/a user NodeMixin class/container-like and equal-comparing AnyNode subclasses with arbitrary attribute dictionaries (non-identifier, underscore and property-named keys; None, numbers, text, bytes, tuples, sets, nested containers, opaque objects) and every attriter/childiter (lists, generators, one-shot iterators, filters that remove all children)/dictcls/maxlevel choice: export equals an independent serialisation (key order, mapping type, 'children' only when non-empty), import_(export(t)) is isomorphic, export(import_(d)) equals d up to empty 'children' lists for generated nested dictionaries with the 'children' key at any position, and neither call modifies its argument (key order included; also for auto-vivifying dictionaries, where a mere look-up of an absent key inserts it); data keys that look like the mixins' private names but were assigned by the user are exported like any other; positional constructor arguments; a memoising childiter that returns the same list object again; an attriter that calls export() of the same exporter on another tree does not disturb the running export; a long-lived exporter whose earlier exports were aborted by an exception from attriter/childiter exports the same data as before. The option product is enumerated on all shapes <= 4/6 nodes. maxlevel values that are not whole numbers are judged by the literal statement (depth >= maxlevel is cut).",
     "Trusts the reference serialiser in vf/props/c10.py; attribute keys avoid 'parent', 'children' and constructor parameter names; bookkeeping = the mixins' name-mangled private attributes; immutability judged on public state." + COMMON_NOTE,
     "Hypothesis attributed trees and nested dictionaries + enumerated option product vs. reference serialiser and two round trips",
     "DESIGN.md sections 4 C10, 9.1",
@@ -88,7 +88,7 @@ check(
 check(
     "C11",
     "exploration",
-    "Generated trees with JSON-representable values (huge ints, finite floats, non-ASCII/control/astral text, nested lists and dicts incl. 'children'/'parent' keys) under every combination of indent/sort_keys/ensure_ascii/separators (also spelled out with their default values) and maxlevel, with and without a custom DictExporter and custom DictImporter/object_pairs_hook: export() must equal json.dumps(reference dict, **options) textually, write() must emit the same text, import_() and read() must rebuild an isomorphic tree with type-strictly equal values - also when the same text is imported again after the first result was edited in place; cls= encoder classes (export() vs json.dumps, write() vs json.dump); documents read from a handle that is not at offset 0; documents of several MiB (one huge string / 4000 nodes) through export(), write() into a bounded sink, import_() and read().",
+    "Generated trees with JSON-representable values (huge ints, finite floats, non-ASCII/control/astral text, nested lists and dicts incl. 'children'/'parent' keys) under every combination of indent/sort_keys/ensure_ascii/separators (also spelled out with their default values) and maxlevel, with and without a custom DictExporter and custom DictImporter/object_pairs_hook: export() must equal json.dumps(reference dict, **options) textually, write() must emit the same text, import_() and read() must rebuild an isomorphic tree with type-strictly equal values - also when the same text is imported again after the first result was edited in place; cls= encoder classes (export() vs json.dumps, write() vs json.dump); documents read from a handle that is not at offset 0; documents of several MiB (one huge string / 4000 nodes) through export(), write() into a bounded sink, import_() and read(). Non-integral maxlevels as in C10.",
     "Trusts json.dumps of the standard library and the C10 reference serialiser; NaN/Infinity, tuples and non-string keys are outside the property." + COMMON_NOTE,
     "Hypothesis JSON-valued trees x option bundles vs. json.dumps(reference) and import round trip",
     "DESIGN.md sections 4 C11, 9.1",
@@ -96,7 +96,7 @@ check(
 check(
     "C12",
     "exploration",
-    "The complete product start x stop subset x filtered-out subset x maxlevel (None, 0..height+2) on every shape <= 5 (quick) / <= 6 (thorough) nodes for DotExporter, UniqueDotExporter and RenderTreeGraph with quote/backslash/newline/non-ASCII names (incl. backslash followed by n/l/r), plus Hypothesis trees with colliding names, custom name/attribute/edge functions, options, indent, graph/name, to_dotfile and mutation phases: header, option lines, node statements in reference pre-order with recoverable escaped identifiers, edge statements as a multiset equal to the declared parent-child pairs, closing brace. The same exporter object is iterated again interleaved, after iterations aborted by an exception from any user callback, after the tree has grown and after the admitted set has shrunk; identifiers must stay stable; to_dotfile of the configured exporter is compared byte-wise, also in a child interpreter under LC_ALL=C with UTF-8 mode off; options passed positionally in the order of the released signatures; a long-lived UniqueDotExporter while exported nodes are garbage-collected and replaced; two really overlapping iterations of one exporter; exports of more than 8192 lines; filter_/stop results are judged by truth value.",
+    "The complete product start x stop subset x filtered-out subset x maxlevel (None, 0..height+2) on every shape <= 5 (quick) / <= 6 (thorough) nodes for DotExporter, UniqueDotExporter and RenderTreeGraph with quote/backslash/newline/non-ASCII names (incl. backslash followed by n/l/r), plus Hypothesis trees with colliding names, custom name/attribute/edge functions, options, indent, graph/name, to_dotfile and mutation phases: header, option lines, node statements in reference pre-order with recoverable escaped identifiers, edge statements as a multiset equal to the declared parent-child pairs, closing brace. The same exporter object is iterated again interleaved, after iterations aborted by an exception from any user callback, after the tree has grown and after the admitted set has shrunk; identifiers must stay stable; to_dotfile of the configured exporter is compared byte-wise, also in a child interpreter under LC_ALL=C with UTF-8 mode off; options passed positionally in the order of the released signatures; a long-lived UniqueDotExporter while exported nodes are garbage-collected and replaced; two really overlapping iterations of one exporter; exports of more than 8192 lines; filter_/stop results are judged by truth value. For a maxlevel that is not a whole number and for predicate objects that are falsy no reading is prescribed: node and edge statements must be right for one and the same reading (floor or ceiling; predicate used or ignored).",
     "Defect D7 repaired (fix: 3fd3770). KF-C12-1 (edge to a directly stopped child, pinned by the repository's reference files) is recognised only by its signature: declared parent, depth in range, stop(c) and filter_(c) true; any other undeclared edge end is a violation." + COMMON_NOTE,
     "bounded-exhaustive option product + Hypothesis names/functions vs. parse-back of emitted lines against the declared sub-forest",
     "DESIGN.md sections 4 C12, 9.1",
@@ -104,7 +104,7 @@ check(
 check(
     "C13",
     "exploration",
-    "Same product, generators and re-iteration phases as C12 for MermaidExporter: header, option lines, node lines indent+id+nodefunc in reference pre-order, default label escaping, distinct and stable identifiers (names may be str subclasses with their own __str__, numbers that are equal but print differently, None, or text with lone surrogates; custom functions may return the empty string for some nodes/edges; iterations aborted by an exception from any user callback must leave nothing behind on the exporter; filter_/stop results are judged by truth value), edge lines as a multiset equal to the declared parent-child pairs, to_file fence (also written in a child interpreter under LC_ALL=C with UTF-8 mode off); options passed positionally in the order of the released signature.",
+    "Same product, generators and re-iteration phases as C12 for MermaidExporter: header, option lines, node lines indent+id+nodefunc in reference pre-order, default label escaping, distinct and stable identifiers (names may be str subclasses with their own __str__, numbers that are equal but print differently, None, or text with lone surrogates; custom functions may return the empty string for some nodes/edges; iterations aborted by an exception from any user callback must leave nothing behind on the exporter; filter_/stop results are judged by truth value), edge lines as a multiset equal to the declared parent-child pairs, to_file fence (also written in a child interpreter under LC_ALL=C with UTF-8 mode off); options passed positionally in the order of the released signature. For a maxlevel that is not a whole number and for predicate objects that are falsy no reading is prescribed: node and edge lines must be right for one and the same reading.",
     "Defect D7 repaired (fix: b21f505). Default identifiers are read off the node lines and must be plain identifier tokens." + COMMON_NOTE,
     "bounded-exhaustive option product + Hypothesis names/functions vs. expected lines built from the declared sub-forest",
     "DESIGN.md sections 4 C13, 9.1",
@@ -112,7 +112,7 @@ check(
 check(
     "C14",
     "exploration",
-    "For generated attributed trees (nodes may lack the searched attribute; dotted attribute names; class-level defaults and read-only properties as search keys; None, list and tuple values, strings containing '%', a wildcard value that equals everything, and one shared NaN object, records whose __eq__ raises AttributeError for foreign operands; filter_/stop closures that depend on each other's side effects, compared with PreOrderIter run on fresh copies; callbacks that fail with TypeError on their second call only (same outcome in search and cachedsearch)) every (mincount, maxcount) combination around the true match count is executed for findall/findall_by_attr in search and cachedsearch, SymlinkNodes pointing at such nodes, keyword and positional, plus find/find_by_attr; results are compared by identity with the reference filtered pre-order, CountError is required iff a bound is violated and its message must name both numbers; everything is repeated after structure and attribute mutations.",
+    "For generated attributed trees (nodes may lack the searched attribute; dotted attribute names; class-level defaults and read-only properties as search keys; None, list and tuple values, strings containing '%', a wildcard value that equals everything, and one shared NaN object, records whose __eq__ raises AttributeError for foreign operands; filter_/stop closures that depend on each other's side effects, compared with PreOrderIter run on fresh copies; callbacks that fail with TypeError on their second call only (same outcome in search and cachedsearch)) every (mincount, maxcount) combination around the true match count is executed for findall/findall_by_attr in search and cachedsearch, SymlinkNodes pointing at such nodes, keyword and positional, plus find/find_by_attr; results are compared by identity with the reference filtered pre-order, CountError is required iff a bound is violated and its message must name both numbers; everything is repeated after structure and attribute mutations. A callback raising StopIteration must give the same outcome in search, cachedsearch and PreOrderIter.",
     "Trusts the C06 reference; 'the attribute exists' is judged with getattr; fastcache is not installed in this sandbox so cachedsearch runs its pass-through wrappers." + COMMON_NOTE,
     "Hypothesis attributed trees + systematic small cases vs. reference filtered pre-order and iff count-bound predicate",
     "DESIGN.md sections 4 C14, 9.1",
@@ -120,7 +120,7 @@ check(
 check(
     "C15",
     "exploration",
-    "Every ordered pair of nodes of every shape up to 7 (quick) / 10 (thorough) nodes (eleven node classes, incl. tuple-valued names), each shape re-checked after three mutations, cross-tree pairs, sampled pairs on Hypothesis trees up to 60 nodes, and chains of 700-3000 nodes: the triple is compared with path arithmetic on ancestor chains recomputed from .parent, the link/simple-path clauses are checked directly, walk(end,start) must be the mirror image, keyword calls walk(start=, end=) must give the same, two long branches forking at the root, a small differential under python -O/-OO, WalkError iff roots differ; one node class has a repr() that raises (a walk inside one tree never needs the text of a node). One Walker object is used for the whole process.",
+    "Every ordered pair of nodes of every shape up to 7 (quick) / 10 (thorough) nodes (eleven node classes, incl. tuple-valued names), each shape re-checked after three mutations, cross-tree pairs, sampled pairs on Hypothesis trees up to 60 nodes, and chains of 700-3000 nodes: the triple is compared with path arithmetic on ancestor chains recomputed from .parent, the link/simple-path clauses are checked directly, walk(end,start) must be the mirror image, keyword calls walk(start=, end=) must give the same, two long branches forking at the root, a small differential under python -O/-OO, WalkError iff roots differ; one node class has a repr() that raises (a walk inside one tree never needs the text of a node). One Walker object is used for the whole process. The reference walks a link model kept by the harness (never the library's .parent/.path); classes storing attributes outside the instance dict, classes whose str()/repr() raise.",
     "Trusts the ancestor-chain arithmetic in vf/props/c15.py." + COMMON_NOTE,
     "bounded-exhaustive shapes x all ordered pairs + Hypothesis vs. ancestor-chain path arithmetic and mirror relation",
     "DESIGN.md sections 4 C15, 9.1",
@@ -128,7 +128,7 @@ check(
 check(
     "C16",
     "exploration",
-    "Logging hooks snapshot the forest at every invocation. For successful calls, refused calls and hook-aborted parent assignments the complete log must equal the closed-form protocol log; for every call (also failed children assignments with rollback) the forest may change only between matching pre/post detach or attach hooks and each of the eight hooks must observe the documented before/after state; post-hook exceptions of parent assignments - also of the per-child detach inside a children assignment or deletion - must leave the preceding step done; del n.children detaches nodes from n only, whatever the hooks did meanwhile. Interrupt-like BaseExceptions from any hook end the call at once (no further hook, no further change). Classes that received their hooks after they were already in use (assigned to the class, or one callable per instance) count like any other. Enumerated over all forests N <= 3/4 x calls x single fault positions, interrupt positions and tree-editing ('evict') hooks, Hypothesis histories, and read-free (blind) call sequences whose per-call logs are compared with the closed-form log.",
+    "Logging hooks snapshot the forest at every invocation. For successful calls, refused calls and hook-aborted parent assignments the complete log must equal the closed-form protocol log; for every call (also failed children assignments with rollback) the forest may change only between matching pre/post detach or attach hooks and each of the eight hooks must observe the documented before/after state; post-hook exceptions of parent assignments - also of the per-child detach inside a children assignment or deletion - must leave the preceding step done; del n.children detaches nodes from n only, whatever the hooks did meanwhile. Interrupt-like BaseExceptions from any hook end the call at once (no further hook, no further change). Classes that received their hooks after they were already in use (assigned to the class, or one callable per instance) count like any other. Enumerated over all forests N <= 3/4 x calls x single fault positions, interrupt positions and tree-editing ('evict') hooks, Hypothesis histories, and read-free (blind) call sequences whose per-call logs are compared with the closed-form log. Hooks returning False are not vetoes; an exception raised by a hook reaches the caller unreplaced (also StopIteration); hooks that edit the caller's own list (plan editlist) change nothing about the assignment.",
     "Hook logs of failed children assignments are not prescribed by the statement (only the bracket invariant applies); calls ending in RecursionError (KF-C03-4) are not bracket-checked; calls with a tree-editing hook are judged by in-hook observations and link consistency only." + COMMON_NOTE,
     "bounded-exhaustive forests x calls x fault positions + Hypothesis and read-free histories vs. closed-form hook log and bracket invariant over in-hook snapshots",
     "DESIGN.md sections 4 C16, 9.1, 9.5",
@@ -152,7 +152,7 @@ check(
 check(
     "C19",
     "exploration",
-    "Every shape <= 5/6 nodes x 10 class schemes (incl. links whose targets are LightNodeMixin nodes of another tree, and a link class with a class-level target whose target class has __getstate__/__setstate__) (Node, mixed NodeMixin classes, a NodeMixin class with inherited __slots__ besides its __dict__, user SymlinkNodeMixin classes keeping target in the dictionary, a slot or behind a property, trees with SymlinkNodes whose targets are in the same tree, in a second tree or other links, falsy/equal-comparing/container-like classes, slotted (list and plain-string __slots__) and dict-carrying LightNodeMixin classes) x every entry node x every applicable pickle protocol and copy.deepcopy, plus Hypothesis trees <= 30 nodes, in part rearranged by moves before they are copied (inner nodes that lost all children again): the copy must be isomorphic (shape, order, classes, attribute values), the result must occupy the entry's position, share no object with the original, satisfy the C01 invariant (also after a fresh node was attached below each childless node of the copy in turn), keep link targets pointing at the corresponding copied node, mutations of either side must not show on the other; user data named _parent/_children and a private slot on a class whose name starts with an underscore survive; and an original node moved below the copy of its former parent becomes that copy's last child.",
+    "Every shape <= 5/6 nodes x 10 class schemes (incl. links whose targets are LightNodeMixin nodes of another tree, and a link class with a class-level target whose target class has __getstate__/__setstate__) (Node, mixed NodeMixin classes, a NodeMixin class with inherited __slots__ besides its __dict__, user SymlinkNodeMixin classes keeping target in the dictionary, a slot or behind a property, trees with SymlinkNodes whose targets are in the same tree, in a second tree or other links, falsy/equal-comparing/container-like classes, slotted (list and plain-string __slots__) and dict-carrying LightNodeMixin classes) x every entry node x every applicable pickle protocol and copy.deepcopy, plus Hypothesis trees <= 30 nodes, in part rearranged by moves before they are copied (inner nodes that lost all children again): the copy must be isomorphic (shape, order, classes, attribute values), the result must occupy the entry's position, share no object with the original, satisfy the C01 invariant (also after a fresh node was attached below each childless node of the copy in turn), keep link targets pointing at the corresponding copied node, mutations of either side must not show on the other; user data named _parent/_children and a private slot on a class whose name starts with an underscore survive; and an original node moved below the copy of its former parent becomes that copy's last child. Three-level class hierarchies adding one slot per level are created freshly per case and copied in every order of first use; attribute values only copy can handle (closures, instances of local classes, factory-made node classes) with deepcopy.",
     "Protocols 0/1 only for classes without __slots__; trees stay far below pickle/deepcopy recursion limits." + COMMON_NOTE,
     "bounded-exhaustive shapes x class schemes x entry x protocol + Hypothesis vs. isomorphism/position/disjointness/consistency/independence oracle",
     "DESIGN.md sections 4 C19, 9.1",
@@ -160,7 +160,7 @@ check(
 check(
     "C20",
     "exploration",
-    "Histories over a growing universe of plain nodes (Node, AnyNode, a Node subclass with a property-backed attribute) and links (SymlinkNode with constructor keywords, SymlinkNodeMixin subclasses that keep `target` in the instance dictionary, in a slot, behind a read-only property or as a class-level attribute; links to links, same or other tree) with structural calls and attribute writes (values incl. None/False/0; names near 'parent'/'children'/'target' and dunder-style names) on links and targets, and assignments to names that exist on the link's class - API names, class-level defaults, inherited settable properties - (judged on the write side); every link answers, for every name it does not define itself, exactly what its direct target answers (one hop at a time): after every step the whole node x attribute-name table read through getattr is compared with an attribute-store model, every node's navigation attributes with the C04 definitions at its own position, and the whole forest with the closed-form structural model.",
+    "Histories over a growing universe of plain nodes (Node, AnyNode, a Node subclass with a property-backed attribute) and links (SymlinkNode with constructor keywords, SymlinkNodeMixin subclasses that keep `target` in the instance dictionary, in a slot, behind a read-only property or as a class-level attribute; links to links, same or other tree) with structural calls and attribute writes (values incl. None/False/0; names near 'parent'/'children'/'target' and dunder-style names) on links and targets, and assignments to names that exist on the link's class - API names, class-level defaults, inherited settable properties - (judged on the write side); every link answers, for every name it does not define itself, exactly what its direct target answers (one hop at a time): after every step the whole node x attribute-name table read through getattr is compared with an attribute-store model, every node's navigation attributes with the C04 definitions at its own position, and the whole forest with the closed-form structural model. Computed attributes of the target are evaluated exactly once per read of the link (counting property, recording __getattr__).",
     "Attribute names exclude the node API and names Python itself looks up on instances; after a refused structural call only exception class and link invariant are judged (rollback is C03). Defect D9 repaired (fix: 1363094)." + COMMON_NOTE,
     "Hypothesis stateful histories + systematic link-chain scripts vs. attribute-store model and structural model",
     "DESIGN.md sections 4 C20, 9.1",
